@@ -82,6 +82,11 @@ func (opts *DialOptions) cloneWithDefaults(ctx context.Context) (context.Context
 		if oldCheckRedirect != nil {
 			return oldCheckRedirect(req, via)
 		}
+		// Installing a CheckRedirect replaces net/http's default policy.
+		// Keep its limit or a redirect loop never ends.
+		if len(via) >= 10 {
+			return fmt.Errorf("stopped after 10 redirects")
+		}
 		return nil
 	}
 	o.HTTPClient = &newClient
